@@ -586,6 +586,19 @@ def c16(ctx, e):
                 if u["id"] in ids_under or (u["parent"] in ids_under) or u["parent"] == oid:
                     ctx.violation("new-record-on-replay", f"{path}: update {u['action']} for {u['name']} recorded after the summary", scen_of(e))
                     return
+    # whatever the program: no invocation may report a response above the limit the SDK itself defines for Lambda responses
+    import json as _json
+    try:
+        from aws_durable_execution_sdk_python.execution import LAMBDA_RESPONSE_SIZE_LIMIT as _LIMIT
+    except Exception:  # noqa: BLE001
+        _LIMIT = 6 * 1024 * 1024 - 50
+    for r in e.invocations:
+        if isinstance(r.result, dict):
+            n = len(_json.dumps(r.result))
+            if n > _LIMIT:
+                ctx.violation("response-over-limit", f"invocation {r.inv} reported a {n} byte response ({r.outcome}); the limit is {_LIMIT}",
+                              scen_of(e))
+                return
     for r in e.invocations:
         if r.outcome in ("SUCCEEDED", "FAILED") and isinstance(r.result, dict):
             big = e.prog.get("final_large") or e.prog.get("final_raise_large")
